@@ -98,6 +98,15 @@ impl CompleteStatus {
 
   /// Wait until the observable complete or an error occur.
   pub fn wait_for_end(this: Arc<Self>) {
+    #[cfg(feature = "verif_hooks")]
+    {
+      let mut fut = StatusFuture(this.clone());
+      if crate::verif_hooks::block_on(&mut |cx| {
+        std::pin::Pin::new(&mut fut).poll(cx).is_ready()
+      }) {
+        return;
+      }
+    }
     block_on(StatusFuture(this));
   }
 }
@@ -113,6 +122,10 @@ impl Future for StatusFuture {
     if self.0.is_closed() {
       Poll::Ready(NormalReturn::new(()))
     } else {
+      #[cfg(feature = "verif_hooks")]
+      crate::verif_hooks::yield_point(
+        crate::verif_hooks::Site::StatusCheckRegister,
+      );
       self.0.waker.register(cx.waker());
       Poll::Pending
     }
